@@ -4,6 +4,7 @@ import (
 	"context"
 	"fmt"
 	"net"
+	"sort"
 	"strings"
 	"time"
 
@@ -94,7 +95,51 @@ func (r *reqRec) outcome() string {
 	return s
 }
 
-func (w *world) evaluate(dials []simnet.DialRecord) {
+// dialRec is one dial attempt of the dialer host: a TCP dial from simnet's dial log or a QUIC Initial datagram seen by
+// the UDP filter (every retransmission is a record of its own).
+type dialRec struct {
+	To      string // "ip:port" (TCP) or "udp/ip:port"
+	Start   uint64
+	StartAt time.Duration
+	Outcome string
+	udp     bool
+}
+
+func dialsOfD(tcp []simnet.DialRecord, udp []dialRec) []dialRec {
+	var out []dialRec
+	for _, d := range tcp {
+		if d.From == ipD {
+			out = append(out, dialRec{To: d.To, Start: d.Start, StartAt: d.StartAt, Outcome: d.Outcome})
+		}
+	}
+	out = append(out, udp...)
+	sort.SliceStable(out, func(i, j int) bool { return out[i].Start < out[j].Start })
+	return out
+}
+
+// sameEndpoint: the local endpoint a dial-back connection arrived on is the endpoint an entry names — directly, or
+// through the NAT's mapping (the entry names the public side, the connection arrives on the private socket).
+func (w *world) sameEndpoint(entryKey, local string) bool {
+	if entryKey == "" || local == "" {
+		return false
+	}
+	if entryKey == local {
+		return true
+	}
+	proto, k := "tcp ", entryKey
+	if strings.HasPrefix(entryKey, "udp/") {
+		proto, k = "udp ", entryKey[4:]
+	}
+	l := strings.TrimPrefix(local, "udp/")
+	for _, m := range w.n.NATMappings() { // "udp 10.1.0.10:4001 -> 6.6.6.6:4001"
+		if m == proto+l+" -> "+k {
+			return true
+		}
+	}
+	return false
+}
+
+func (w *world) evaluate(dials []dialRec, otherUDP []dialRec) {
 	o := w.o
 	var sig []string
 	for _, r := range w.recs {
@@ -148,7 +193,7 @@ func (w *world) evaluate(dials []simnet.DialRecord) {
 				continue
 			}
 			for _, e := range x.plan.entries {
-				if e.ipport != "" && e.ipport == ev.local && e.cls != clsNever {
+				if e.cls != clsNever && w.sameEndpoint(e.ipport, ev.local) {
 					named = true
 					if x != r {
 						o.Probe("dial-back-over-connection-of-sibling-request")
@@ -159,21 +204,36 @@ func (w *world) evaluate(dials []simnet.DialRecord) {
 		if !named {
 			o.Violate("C16/dial-back-on-unrequested-address", "%s: dial-back connection arrived on %s, which no request of C%d in service names as an eligible address", r.name(), ev.local, ev.client)
 		}
-		if c := w.clients[ev.client]; ev.local == key(c.altIP, 4001) {
+		if c := w.clients[ev.client]; c.altIP != "" && strings.TrimPrefix(ev.local, "udp/") == key(c.altIP, 4001) {
 			o.Probe("dial-back-on-second-ip")
+		}
+		if strings.HasPrefix(ev.local, "udp/") {
+			o.Probe("dial-back-over-quic-or-webtransport")
+			if w.clients[ev.client].nat {
+				o.Probe("dial-back-through-the-nat")
+			}
 		}
 	}
 
 	// ---- 2. every dial of the dialer host -----------------------------------------------------
 	nDials := 0
+	logged := map[string]int{}
 	for _, d := range dials {
-		if d.From != ipD {
-			continue
+		if d.udp {
+			// one trace line / signature element per destination, however many Initials were (re)transmitted
+			logged[d.To]++
+			if logged[d.To] == 1 {
+				nDials++
+				o.Logf("QUIC Initial from D to %s at %v #%d", d.To, d.StartAt, d.Start)
+				sig = append(sig, "dial:"+d.To)
+				o.Probe("quic-dial-by-dialer-host")
+			}
+		} else {
+			nDials++
+			o.Logf("dial by D to %s at %v #%d: %s", d.To, d.StartAt, d.Start, d.Outcome)
+			sig = append(sig, "dial:"+d.To+":"+d.Outcome)
 		}
-		nDials++
-		o.Logf("dial by D to %s at %v #%d: %s", d.To, d.StartAt, d.Start, d.Outcome)
-		sig = append(sig, "dial:"+d.To+":"+d.Outcome)
-		host, _, _ := net.SplitHostPort(d.To)
+		host, _, _ := net.SplitHostPort(strings.TrimPrefix(d.To, "udp/"))
 		dip := net.ParseIP(host)
 		type cand struct {
 			r *reqRec
@@ -188,13 +248,16 @@ func (w *world) evaluate(dials []simnet.DialRecord) {
 			if r.ended && d.StartAt > r.endAt+dialGrace {
 				continue
 			}
-			for _, e := range r.plan.entries {
-				if e.ipport == d.To {
-					cands = append(cands, cand{r, e})
-					if e.cls != clsNever {
-						onlyNever = false
-					}
-					break
+			best := -1
+			for i, e := range r.plan.entries {
+				if e.ipport == d.To && (best < 0 || (r.plan.entries[best].cls == clsNever && e.cls != clsNever)) {
+					best = i
+				}
+			}
+			if best >= 0 {
+				cands = append(cands, cand{r, r.plan.entries[best]})
+				if r.plan.entries[best].cls != clsNever {
+					onlyNever = false
 				}
 			}
 		}
@@ -216,10 +279,16 @@ func (w *world) evaluate(dials []simnet.DialRecord) {
 			if c.e.cls == clsNever {
 				continue
 			}
-			cip := net.ParseIP(w.clients[c.r.plan.peer].ip).String()
+			cip := net.ParseIP(w.clients[c.r.plan.peer].obsIP).String()
+			if d.udp && logged[d.To] == 1 && strings.Contains(c.e.desc, "/webtransport") {
+				o.Probe("dial-of-a-webtransport-address")
+			}
 			if c.e.ip == cip {
 				justified = true
 				o.Probe("dial-same-ip")
+				if w.clients[c.r.plan.peer].nat {
+					o.Probe("dial-to-the-nat-address-without-dial-data")
+				}
 				break
 			}
 			if c.r.ddr {
@@ -244,6 +313,24 @@ func (w *world) evaluate(dials []simnet.DialRecord) {
 				cls = "C16/amplification/dial-before-dial-data-complete"
 			}
 			o.Violate(cls, "D dialled %s at %v (#%d), an IP other than the requester's: %s", d.To, d.StartAt, d.Start, strings.Join(why, "; "))
+		}
+	}
+
+	// ---- 2b. every other datagram of the dialer host goes to an endpoint some request named -----------------
+	for _, d := range otherUDP {
+		named := false
+		for _, r := range w.recs {
+			if r.sentStamp == 0 || r.sentStamp > d.Start {
+				continue
+			}
+			for _, e := range r.plan.entries {
+				if e.ipport == d.To && e.cls != clsNever {
+					named = true
+				}
+			}
+		}
+		if !named {
+			o.Violate("C16/datagram-to-unrequested-address", "D sent a datagram to %s at %v (#%d), an endpoint no request sent before names as an eligible address", d.To, d.StartAt, d.Start)
 		}
 	}
 
@@ -378,7 +465,7 @@ func (w *world) evaluate(dials []simnet.DialRecord) {
 			}
 		}
 		needDD := false
-		cip := net.ParseIP(w.clients[r.plan.peer].ip).String()
+		cip := net.ParseIP(w.clients[r.plan.peer].obsIP).String()
 		for _, e := range r.plan.entries {
 			if e.cls != clsNever && e.ip != cip {
 				needDD = true
